@@ -19,6 +19,28 @@ impl Monitor for C11 {
     fn sizes(&self, tier: Tier) -> Sizes { match tier { Tier::Quick => Sizes { cases: 3_000, min_nontrivial: 10_000 }, Tier::Thorough => Sizes { cases: 150_000, min_nontrivial: 500_000 } } }
 
     fn generate(&self, rng: &mut Rng, _tier: Tier) -> J {
+        // aggregate statements with a JOIN, fed line by line through the library API (no executor follows a join): only with a joined
+        // file in which no join key occurs twice, so that every line has at most one partner - with two or more the unchanged tree
+        // concatenates intermediate tables (open finding C11, pinned reproducer), which is not what these cases are about
+        if rng.chance(1, 6) {
+            let (mut case, _t, sel, _shape) = gen_base(rng, &BaseCfg { shapes: &[Shape::JoinAggregate], allow_limit: false, allow_having: true, agg_distinct: true, order_insensitive_only: false, exact_data: true, min_lines: 3, max_lines: 30, not_null_column: false, big_rate: 0, big_lines: 0 });
+            let key = sel.join.as_ref().map(|j| j.right.1.clone()).unwrap_or_else(|| "k".into());
+            let joined = strs(&case, "joined");
+            let mut kept: Vec<String> = Vec::new();
+            if let (Ok(tables), Ok(ks)) = (eng::tables_from(case["tables"].as_str().unwrap_or("")), eng::parse(&format!("SELECT {} FROM u", key))) {
+                let mut seen: Vec<crate::val::RV> = Vec::new();
+                for l in joined {
+                    match eng::exec_batch(&tables, &ks, std::slice::from_ref(&l)) {
+                        Ok(r) if r.rows.len() == 1 && r.rows[0].len() == 1 => { let v = r.rows[0][0].clone(); if !seen.iter().any(|s| s.same(&v, 0.0)) { seen.push(v); kept.push(l); } }
+                        Ok(r) if r.rows.is_empty() => kept.push(l),
+                        _ => {}
+                    }
+                }
+            }
+            case["joined"] = json!(kept);
+            case["unique_join_keys"] = json!(true);
+            return case;
+        }
         let (mut case, _t, mut sel, shape) = gen_base(rng, &BaseCfg { shapes: &[Shape::Plain, Shape::Distinct, Shape::Aggregate, Shape::Aggregate, Shape::Aggregate], allow_limit: false, allow_having: true, agg_distinct: true, order_insensitive_only: false, exact_data: true, min_lines: 3, max_lines: 30, not_null_column: false, big_rate: 100, big_lines: 500 });
         if shape == Shape::Aggregate && rng.chance(1, 3) { let keys = sel.group_by.clone().unwrap_or_default(); sel.projs.retain(|(e, _)| !keys.contains(e)); if sel.projs.is_empty() { sel.projs.push((E::Agg("count".into(), false, vec![E::Star]), None)); } sel.distinct = true; case["stmt"] = json!(sel.text(Paren::Full)); }
         case
@@ -26,10 +48,10 @@ impl Monitor for C11 {
 
     fn check(&self, case: &J, obs: &mut Obs) -> Verdict {
         let base = match Base::from_case(case) { Ok(b) => b, Err(e) => return Verdict::Inconclusive(e) };
-        let shape = case["shape"].as_str().unwrap_or("?").to_owned();
+        let shape = if case["unique_join_keys"].as_bool() == Some(true) { "JoinAggregateUniqueKeys".to_owned() } else { case["shape"].as_str().unwrap_or("?").to_owned() };
         let p = match base.prepare("i") { Ok(p) => p, Err(e) => return Verdict::Inconclusive(format!("stmt: {}", e.show().chars().take(40).collect::<String>())) };
         let aggregate = p.stmt.is_aggregate();
-        let feat = format!("{}{}{}", shape, if base.sql.contains("DISTINCT") { "+distinct" } else { "" }, if base.sql.contains(" HAVING ") { "+having" } else { "" });
+        let feat = format!("{}{}{}{}", shape, if base.sql.contains("DISTINCT") { "+distinct" } else { "" }, if base.sql.contains(" HAVING ") { "+having" } else { "" }, if base.sql.contains(" OUTER JOIN ") { "+outer" } else { "" });
         obs.hit(&format!("shape:{}", feat));
         let (outs, err) = eng::exec_lines(&base.tables, &p.stmt, &base.lines, true, true);
         if let Some(eng::EngErr::Panic(pn)) = &err { return Verdict::Violated(vec![Violation::new(format!("incremental|{}|panic:{}", feat, pn.class()), pn.describe())]); }
